@@ -215,7 +215,7 @@ def graphRow17 : GRow where
   probes := [
     (.node 5 [.node 5 []], .acc),
     (.node 1 [.node 5 []], .rej),
-    (.node 5 [.nil], .acc),
+    (.node 5 [.nil], .rej),
     (.node 5 [.node 1 []], .acc)
   ]
 
@@ -1419,25 +1419,41 @@ def graphRow90 : GRow where
 def graphRow91 : GRow where
   name := "rec_map"
   env := [⟨some 3, [⟨.map, 0, .required⟩]⟩]
-  built := false
+  built := true
   probes := [
-
+    (.node 5 [.list [.node 5 [.list []]]], .acc),
+    (.node 1 [.list [.node 5 [.list []]]], .rej),
+    (.node 5 [.nil], .rej),
+    (.node 5 [.list []], .acc),
+    (.node 5 [.list [.node 1 [.list []]]], .acc),
+    (.node 5 [.list [.node 5 [.nil]]], .acc)
   ]
 
 def graphRow92 : GRow where
   name := "rec_mapptr"
   env := [⟨some 3, [⟨.mapptr, 0, .required⟩]⟩]
-  built := false
+  built := true
   probes := [
-
+    (.node 5 [.list [.node 5 [.list []]]], .acc),
+    (.node 1 [.list [.node 5 [.list []]]], .rej),
+    (.node 5 [.nil], .rej),
+    (.node 5 [.list []], .acc),
+    (.node 5 [.list [.node 1 [.list []]]], .acc),
+    (.node 5 [.list [.node 5 [.nil]]], .acc)
   ]
 
 def graphRow93 : GRow where
   name := "rec_map_below"
   env := [⟨some 3, [⟨.val, 1, .required⟩]⟩, ⟨some 3, [⟨.map, 1, .required⟩]⟩]
-  built := false
+  built := true
   probes := [
-
+    (.node 5 [.node 5 [.list [.node 5 [.list []]]]], .acc),
+    (.node 1 [.node 5 [.list [.node 5 [.list []]]]], .rej),
+    (.node 5 [.node 1 [.list [.node 5 [.list []]]]], .rej),
+    (.node 5 [.node 5 [.nil]], .rej),
+    (.node 5 [.node 5 [.list []]], .acc),
+    (.node 5 [.node 5 [.list [.node 1 [.list []]]]], .acc),
+    (.node 5 [.node 5 [.list [.node 5 [.nil]]]], .acc)
   ]
 
 def graphTable : List GRow := [graphRow0, graphRow1, graphRow2, graphRow3, graphRow4, graphRow5, graphRow6, graphRow7, graphRow8, graphRow9, graphRow10, graphRow11, graphRow12, graphRow13, graphRow14, graphRow15, graphRow16, graphRow17, graphRow18, graphRow19, graphRow20, graphRow21, graphRow22, graphRow23, graphRow24, graphRow25, graphRow26, graphRow27, graphRow28, graphRow29, graphRow30, graphRow31, graphRow32, graphRow33, graphRow34, graphRow35, graphRow36, graphRow37, graphRow38, graphRow39, graphRow40, graphRow41, graphRow42, graphRow43, graphRow44, graphRow45, graphRow46, graphRow47, graphRow48, graphRow49, graphRow50, graphRow51, graphRow52, graphRow53, graphRow54, graphRow55, graphRow56, graphRow57, graphRow58, graphRow59, graphRow60, graphRow61, graphRow62, graphRow63, graphRow64, graphRow65, graphRow66, graphRow67, graphRow68, graphRow69, graphRow70, graphRow71, graphRow72, graphRow73, graphRow74, graphRow75, graphRow76, graphRow77, graphRow78, graphRow79, graphRow80, graphRow81, graphRow82, graphRow83, graphRow84, graphRow85, graphRow86, graphRow87, graphRow88, graphRow89, graphRow90, graphRow91, graphRow92, graphRow93]
